@@ -2,6 +2,7 @@ package spec
 
 import (
 	"fmt"
+	"strings"
 
 	"pgregory.net/rapid"
 )
@@ -34,10 +35,10 @@ type WInjector struct {
 	Name   string
 	Unused []TypeID `json:",omitempty"` // argument types no provider uses
 	Args   []TypeID
-	Want  TypeID
-	Err   bool
-	Elems []WElem
-	Panic bool `json:",omitempty"` // body is panic(wire.Build(...)) instead of wire.Build(...); return zero
+	Want   TypeID
+	Err    bool
+	Elems  []WElem
+	Panic  bool `json:",omitempty"` // body is panic(wire.Build(...)) instead of wire.Build(...); return zero
 }
 
 type WFile struct {
@@ -87,7 +88,7 @@ type WOpts struct {
 }
 
 var WireFeatures = []string{"bind", "bind-value-impl", "value", "ivalue", "struct", "struct-fields", "struct-value-consumer", "fieldsof", "fieldsof-value", "fieldsof-ptr",
-	"sets", "nested-sets", "inline-sets", "inline-sets-deep", "struct-unexported-field", "ext-alias-suffix", "ext-name-differs-from-path", "ext-alias-equals-directory", "composite", "same-name-packages-across-files", "fieldsof-twice", "second-injector", "twin-types-in-same-named-packages", "value-ext-var", "build-in-panic", "bind-two-interfaces", "wire-paren", "struct-keyword-field", "struct-noinject-tag", "struct-no-fields", "named-alias", "wire-import-alias", "wire-legacy-build-tag", "wire-sets-in-var-block", "value-ext-nested-selector", "decoy-constructor-in-migrated-package", "struct-in-ext-package", "fieldsof-in-ext-package", "err", "args", "unused-arg", "multi-file", "ext", "bind-foreign-ctor", "bind-split-set", "multi-result"}
+	"sets", "nested-sets", "inline-sets", "inline-sets-deep", "struct-unexported-field", "ext-alias-suffix", "ext-name-differs-from-path", "ext-alias-equals-directory", "composite", "same-name-packages-across-files", "fieldsof-twice", "second-injector", "twin-types-in-same-named-packages", "value-ext-var", "build-in-panic", "struct-field-named-like-package", "struct-field-named-like-type", "bind-two-interfaces", "wire-paren", "struct-keyword-field", "struct-noinject-tag", "struct-no-fields", "named-alias", "wire-import-alias", "wire-legacy-build-tag", "wire-sets-in-var-block", "value-ext-nested-selector", "decoy-constructor-in-migrated-package", "struct-in-ext-package", "fieldsof-in-ext-package", "err", "args", "unused-arg", "multi-file", "ext", "bind-foreign-ctor", "bind-split-set", "multi-result"}
 
 func WAllowAll(except ...string) map[string]bool {
 	m := map[string]bool{}
@@ -584,6 +585,20 @@ func (g *wgen) genStruct() {
 		fname := "F" + string(rune('A'+i))
 		if extPkg == "" && g.want("struct-unexported-field", "unexpfield", 30) {
 			fname = "f" + string(rune('a'+i)) // same-package unexported field: wire injects it too
+		} else if extPkg != "" && i == 0 && g.want("struct-field-named-like-package", "pkgfield", 30) {
+			// a struct of another package whose first field is named after that package (Util in
+			// package util): the parameter util must not capture the qualifier of util.Saa
+			n := g.c.Ext(extPkg).Name
+			fname = strings.ToUpper(n[:1]) + n[1:]
+		} else if extPkg == "" && i == 0 && g.want("struct-field-named-like-type", "typefield", 12) {
+			// an unexported struct type whose first field is its exported namesake: saa{Saa: saa}
+			fname = s.Name
+			s.Name = strings.ToLower(s.Name[:1]) + s.Name[1:]
+			if g.used[s.Name] {
+				s.Name, fname = fname, "F"+string(rune('A'+i))
+			} else {
+				g.used[s.Name] = true
+			}
 		} else if g.want("struct-keyword-field", "kwfield", 15) {
 			// exported field whose lower-case form is a Go keyword
 			kw := []string{"Type", "Func", "Range", "Var", "Map", "Go", "Select", "Chan", "Default", "Import"}
